@@ -93,7 +93,7 @@ RESULTS = {
               ("detected", "C20", ["h_c_adapter"], "callback (status 0, accepted 0) -> write returned Ok(6)")),
     "C20-B": ("C20", "mla_archive_close clears the caller's handle only when finalize succeeds",
               "close that fails (failing callback / open file), then the handle used again",
-              ("missed", "needs a real ArchiveWriter behind the handle (from_config: bincode header, HashMaps) — only argument validation and the adapters are within reach for C20")),
+              ("detected", "C20", ["h_c_close_open_file"], "mla_archive_close failed with status 0xb0000 and left the caller's handle set: the archive behind it is already released", "thorough")),
     # ---- second round (sub-agents were also given the list of first-round changes so as not to repeat them)
     "C02-C": ("C02", "fail-safe decompressor: input-cache fill offset assigned (`=`) instead of advanced (`+=`) (same patch as C05-C, delivered for C02)",
               "a refill that tops up a partly filled 4 KiB cache (source returning short reads)",
@@ -215,7 +215,7 @@ def main(overrides=None):
             "confirmation_procedure": "bin/confirm_seeded.py in a scratch worktree: demo on the pristine tree passes; demo with the "
                                       "change fails; whole pinned suite with the change passes (flaky test_repair_auth_unauth ignored)",
             "detection": None if det is None else (
-                {"status": "detected", "check": f"bin/check {det[1]} --tier quick", "harnesses": det[2], "exit": 1,
+                {"status": "detected", "check": f"bin/check {det[1]} --tier {det[4] if len(det) > 4 else 'quick'}", "harnesses": det[2], "exit": 1,
                  "native_replay": det[3]} if det[0] == "detected" else {"status": "missed", "reason": det[1]}),
             "evaluation_procedure": "patch applied (git apply), quick check of the property run, patch undone (bin/eval_mutants.py in the "
                                     "change's own worktree via VERIF_REPO; bin/try_mutant applies to /repo itself)",
